@@ -469,6 +469,39 @@ neu('N7-pool-method-form', ALLP, [(SX, "        S, I, N = [np.mean(power, axis=-
 BG = D + 'complex_bingham.py'
 mut('C07-bingham-gap-relative-to-smallest', 'C07', BG, "        diff = np.maximum(diff, eps)\n", "        diff = np.maximum(diff, eps * np.abs(covariance_eigenvalues[..., :1]))\n", expect='absolute-gap', props=['C07', 'C03'])
 neu('N7-bingham-gap-clip', ALLP, [(BG, "        diff = np.maximum(diff, eps)\n", "        diff = np.clip(diff, eps, None)\n", False)])
+# ---- blind spots found by the first-order mutation survey (tools/mutate.py): each was unreported AND invisible to the pinned tests
+BF = 'pb_bss/extraction/beamformer.py'
+mut('C08-watson-scatter-without-conj', 'C08', D + 'complex_watson.py', '"...nd,...nD->...dD", y, y.conj()', '"...nd,...nD->...dD", y, y', expect='hermitian-scatter', props=['C08'])
+mut('C08-bingham-weighted-scatter-without-conj', 'C08', D + 'complex_bingham.py', '"...n,...nd,...nD->...dD", saliency, y, y.conj()', '"...n,...nd,...nD->...dD", saliency, y, y', expect='hermitian-scatter', props=['C08'])
+mut('C08-default-saliency-zeros', 'C08', D + 'cbmm.py', "            saliency = np.ones_like(initialization[..., 0, :])", "            saliency = np.zeros_like(initialization[..., 0, :])", expect='default-saliency', props=['C08'])
+mut('C08-default-saliency-test-flipped', 'C08', D + 'cwmm.py', "        if saliency is None:\n            saliency = np.ones_like", "        if saliency is not None:\n            saliency = np.ones_like", expect='default-saliency', props=['C08'])
+mut('C08-vmf-resultant-times-mass', 'C08', D + 'von_mises_fisher.py', "r_bar = norm / np.sum(saliency, axis=-1)", "r_bar = norm * np.sum(saliency, axis=-1)", expect='resultant-length', props=['C08'])
+mut('C08-vmf-concentration-sign', 'C08', D + 'von_mises_fisher.py', "(r_bar * D - r_bar ** 3) / (1 - r_bar ** 2)", "(r_bar * D + r_bar ** 3) / (1 - r_bar ** 2)", expect='banerjee', props=['C08'])
+mut('C08-vmf-dimension-first-axis', 'C08', D + 'von_mises_fisher.py', "        D = y.shape[-1]\n\n        if saliency is None:", "        D = y.shape[0]\n\n        if saliency is None:", expect='banerjee', props=['C08'])
+neu('N9-vmf-concentration-factored', ALLP, [(D + 'von_mises_fisher.py', "(r_bar * D - r_bar ** 3) / (1 - r_bar ** 2)", "r_bar * (D - r_bar * r_bar) / (1 - np.square(r_bar))", False)])
+mut('C07-watson-normaliser-divided', 'C07', D + 'complex_watson.py', "norm = hyp1f1(1, dimension, scale) * (", "norm = hyp1f1(1, dimension, scale) / (", expect='sphere-area', props=['C07', 'C03'])
+neu('N9-watson-normaliser-rearranged', ALLP, [(D + 'complex_watson.py', "        norm = hyp1f1(1, dimension, scale) * (\n            2 * np.pi ** dimension / math.factorial(dimension - 1)\n        )",
+                                                "        area = 2 * np.pi ** dimension\n        norm = area * hyp1f1(1, dimension, scale) / math.factorial(dimension - 1)", False)])
+mut('C20-dimension-first-axis', 'C20', D + 'cbmm.py', "            self.dimension = y.shape[-1]", "            self.dimension = y.shape[0]", expect='dimension-is-last-axis', props=['C20'])
+mut('C09-floor-relative-to-smallest', 'C09', D + 'complex_angular_central_gaussian.py', "                np.amax(eigenvals, axis=-1, keepdims=True) * eigenvalue_floor,", "                np.amin(eigenvals, axis=-1, keepdims=True) * eigenvalue_floor,",
+    expect='floor-relative-to-max', props=['C09'])
+mut('C13-phase-correction-cumsum', 'C13', BF, "    vector[..., 1:, :] *= np.cumprod(", "    vector[..., 1:, :] *= np.cumsum(", expect='accumulation', props=['C13'])
+mut('C13-phase-correction-no-conj', 'C13', BF, "vector[..., 1:, :].conj() * vector[..., :-1, :]", "vector[..., 1:, :] * vector[..., :-1, :]", expect='inter-bin-phase', props=['C13'])
+mut('C13-phase-correction-sum-over-bins', 'C13', BF, "                    axis=-1, keepdims=True\n                )\n            )\n        ), axis=-2", "                    axis=-2, keepdims=True\n                )\n            )\n        ), axis=-2",
+    expect='inter-bin-phase', props=['C13'])
+mut('C13-phase-correction-wrong-direction', 'C13', BF, "            1j * np.angle(", "            -1j * np.angle(", expect='inter-bin-phase', props=['C13'])
+neu('N9-phase-correction-operands-swapped', ALLP, [(BF, "vector[..., 1:, :].conj() * vector[..., :-1, :]", "vector[..., :-1, :] * np.conj(vector[..., 1:, :])", False)])
+mut('C11-wmwf-selection-vector-row', 'C11', BF, "        return np.sum(projected, axis=-1)", "        return np.sum(projected, axis=-2)", expect='selection-vector', props=['C11'])
+mut('C12-ban-denominator-phase', 'C12', BF, "denominator = np.sqrt(denominator * denominator.conj())", "denominator = np.sqrt(denominator / denominator.conj())", expect='gain-form', props=['C12'])
+mut('C16-dhtv-bin-range-swapped', 'C16', PA, "                for f in range(start, end):", "                for f in range(end, start):", expect='segment-bins', props=['C16'])
+mut('C16-plan-segment-negative-width', 'C16', PA, "                segment_start + self.segment_width,\n            ]\n            for segment_start in range(\n            self.segment_start - self.segment_shift",
+    "                segment_start - self.segment_width,\n            ]\n            for segment_start in range(\n            self.segment_start - self.segment_shift", expect='segment-width', props=['C16'])
+mut('C16-centroid-normalised-over-classes', 'C16', PA, "                        time_centroid,\n                        axis=-1,", "                        time_centroid,\n                        axis=0,", expect='time-normalisation', props=['C16'])
+mut('C15-cos-normalised-over-frequency', 'C15', PA, "            _parameterized_vector_norm(mask, axis=-1),", "            _parameterized_vector_norm(mask, axis=-2),", expect='unit-along-time', props=['C15'])
+mut('C19-power-real-minus-imag', 'C19', SX, "return np.mean(X.real ** 2 + X.imag ** 2,", "return np.mean(X.real ** 2 - X.imag ** 2,", expect='mean-square', props=['C19'])
+mut('C19-set-snr-divides-noise', 'C19', SX, "        return X, N * factor", "        return X, N / factor", expect='apply', props=['C19'])
+mut('C19-candidates-last-axis', 'C19', SX, "    for p in range(all_target_selections.shape[0]):", "    for p in range(all_target_selections.shape[-1]):", expect='all-candidates', props=['C19'])
+mut('C08-self-call-arguments-crossed', 'C08', D + 'vmfcacgmm.py', "affiliation, quadratic_form = self._predict(observation, embedding)", "affiliation, quadratic_form = self._predict(embedding, observation)", expect='R-ARGNAME', props=['C08'])
 # ---- whole refactorings written by independent sub-agents (14-20 behaviour-preserving edits each, verified bit-identical on
 #      600-900 inputs per patch): every check must stay silent on each of them
 for r, what in (('R1', 'mixture_model_utils / cacgmm / cACG'), ('R2', 'cwmm / cbmm / Watson / Bingham / distribution.utils'), ('R3', 'gmm / gaussian / vMF / gcacgmm / vmfcacgmm'),
